@@ -17,9 +17,10 @@ fn ack_frames(p: &Value) -> Vec<Value> {
 }
 
 /// (pn, size, ack_eliciting, time_sent) of one space's outstanding packets
-fn table(p: &Value, s: usize) -> Vec<(i64, i64, bool, i64)> {
+fn table(p: &Value, s: usize) -> Vec<(i64, i64, bool, i64, i64)> {
     p["sp"][s]["sent"].as_array().cloned().unwrap_or_default().iter()
-        .map(|x| (x[0].as_i64().unwrap_or(-1), x[1].as_i64().unwrap_or(0), x[2] == true, x[4].as_i64().unwrap_or(0)))
+        .map(|x| (x[0].as_i64().unwrap_or(-1), x[1].as_i64().unwrap_or(0), x[2] == true, x[4].as_i64().unwrap_or(0),
+            x[3].as_i64().unwrap_or(0)))
         .collect()
 }
 
@@ -40,6 +41,7 @@ fn state(p: &Value) -> Value {
         "pto":[cap(&p["pto"][0]), cap(&p["pto"][1]), cap(&p["pto"][2])],
         "tm":cap(&p["tm"][0]),"st":cap(&p["st"]),"val":p["path"]["val"] == true,
         "pcr":(0..3).map(|s| cap(&p["sp"][s]["pcrypto"])).sum::<i64>(),
+        "cev":cap(&p["stats"]["cev"]),"mtu":cap(&p["path"]["mtu"]),
         "hs":cap(&p["hs"]),"pmad":cap(&p["pmad"]),
         "sentb":cap(&p["path"]["sent"]),"recvb":cap(&p["path"]["recvd"]),"gen":cap(&p["path"]["gen"]),
     })
@@ -135,7 +137,7 @@ pub fn loss(trace: &[Value]) -> Vec<Value> {
             let after: BTreeSet<i64> = table(post, s).iter().map(|x| x.0).collect();
             for x in table(pre, s) {
                 if !after.contains(&x.0) && !gone[s].contains(&x.0) && !dropped {
-                    lost.push(json!({"sp":s,"pn":x.0,"ts":x.3,"ae":x.2,"size":x.1}));
+                    lost.push(json!({"sp":s,"pn":x.0,"ts":x.3,"ae":x.2,"size":x.1,"onpath":x.4 == pre["path"]["gen"].as_i64().unwrap_or(0)}));
                 }
             }
             let lack = post["sp"][s]["lack"].as_i64().unwrap_or(-1);
